@@ -19,14 +19,16 @@ fn node_id(b: BookMoves) -> u64 {
 
 /// number of children, with a guard against a decoder that does not terminate
 fn children(b: BookMoves) -> Result<Vec<chess_lookup::BookMove>, String> {
-    let mut v = Vec::new();
-    for mv in op(Op::Book, || b.into_iter()) {
-        v.push(mv);
-        if v.len() > 100_000 {
-            return Err(format!("more than 100000 children decoded from node {}", node_id(b)));
+    op(Op::Book, || {
+        let mut v = Vec::new();
+        for mv in b.into_iter() {
+            v.push(mv);
+            if v.len() > 100_000 {
+                return Err(format!("more than 100000 children decoded from node {}", node_id(b)));
+            }
         }
-    }
-    Ok(v)
+        Ok(v)
+    })
 }
 
 /// complete walk used only as the denominator of the coverage figure
@@ -88,6 +90,13 @@ pub fn run(ctx: &mut Ctx) -> Step {
     let leaves = LEAVES.get_or_init(leaf_counts);
     ctx.stats.max("max.book-total-lines", *leaves.get(&node_id(INITIAL_BOOOK_MOVES)).unwrap_or(&0));
     ctx.stats.max("max.book-total-nodes", total);
+    // the CLI starts from the empty node when it is given a position: traversal from it
+    // must terminate, stay inside the table and yield nothing
+    match children(chess_lookup::EMPTY_BOOK_MOVES) {
+        Ok(c) if c.is_empty() => ctx.stats.bump("c17.empty-node-walks"),
+        Ok(c) => return ctx.fail(Prop::C17, "book.empty-node-has-moves", String::new(), format!("EMPTY_BOOK_MOVES yields {} moves", c.len())),
+        Err(e) => return ctx.fail(Prop::C17, "book.nonterminating", "node=empty".into(), e),
+    }
     // visits per trie edge, inside this run only (a run stays a pure function of its tape)
     let mut visits: BTreeMap<u64, u32> = BTreeMap::new();
     for _ in 0..games {
